@@ -412,6 +412,7 @@ var lfieldPool = []lfield{
 	{"history", "[]string", "", `[]string{"created", "renamed"}`},
 	{"_rev", "int64", "", `99`},
 	{"note", "string", "", `"n"`},
+	{"_", "int32", "", ""}, // a blank field: mirrored, never copied (it cannot be named)
 }
 
 func genLocalOrigin(r *rand.Rand) *localOrigin {
@@ -429,7 +430,7 @@ func genLocalOrigin(r *rand.Rand) *localOrigin {
 		lo.fields = append(lo.fields, lfieldPool[0])
 	}
 	for _, f := range lo.fields {
-		if r.Intn(4) == 0 {
+		if r.Intn(4) == 0 && f.name != "_" {
 			lo.omit[f.name] = true
 		}
 	}
@@ -487,13 +488,13 @@ func (lo *localOrigin) testFile() string {
 `)
 	b.WriteString("\tsrc := &AccountView{\n")
 	for _, f := range lo.fields {
-		if !lo.omit[f.name] {
+		if !lo.omit[f.name] && f.val != "" {
 			fmt.Fprintf(&b, "\t\t%s: %s,\n", f.name, f.val)
 		}
 	}
 	b.WriteString("\t}\n\tgot := src.DeepCopyAs()\n\texpect := &Account{\n")
 	for _, f := range lo.fields {
-		if !lo.omit[f.name] {
+		if !lo.omit[f.name] && f.val != "" {
 			fmt.Fprintf(&b, "\t\t%s: src.%s,\n", f.name, f.name)
 		}
 	}
